@@ -78,9 +78,25 @@ func (h *connIDManager) add(f *wire.NewConnectionIDFrame) error {
 			ErrorMessage: "received NEW_CONNECTION_ID frame but zero-length connection IDs are in use",
 		}
 	}
+	// A retransmitted NEW_CONNECTION_ID frame for a connection ID that is in use on a probing path is a duplicate.
+	// It must neither be mistaken for a reordered frame (and retired while it is in use), nor be queued a second time.
+	for _, entry := range h.pathProbing {
+		if entry.SequenceNumber == f.SequenceNumber {
+			if entry.ConnectionID != f.ConnectionID {
+				return fmt.Errorf("received conflicting connection IDs for sequence number %d", f.SequenceNumber)
+			}
+			if entry.StatelessResetToken != f.StatelessResetToken {
+				return fmt.Errorf("received conflicting stateless reset tokens for sequence number %d", f.SequenceNumber)
+			}
+			return nil
+		}
+	}
 	// If the NEW_CONNECTION_ID frame is reordered, such that its sequence number is smaller than the currently active
 	// connection ID or if it was already retired, send the RETIRE_CONNECTION_ID frame immediately.
-	if f.SequenceNumber < max(h.activeSequenceNumber, h.highestProbingID) || f.SequenceNumber < h.highestRetired {
+	// Connection IDs up to highestProbingID were handed to path probing. Those not in use anymore (see above) were retired.
+	// A retransmission of the frame for the active connection ID is a duplicate, no matter how far path probing advanced.
+	if f.SequenceNumber != h.activeSequenceNumber &&
+		(f.SequenceNumber < h.activeSequenceNumber || f.SequenceNumber <= h.highestProbingID || f.SequenceNumber < h.highestRetired) {
 		h.queueControlFrame(&wire.RetireConnectionIDFrame{
 			SequenceNumber: f.SequenceNumber,
 		})
